@@ -160,8 +160,11 @@ impl HttpSignatureHelper for http::Signature {
     fn generate_http_index_keys(&self) -> Vec<HttpIndexKey> {
         let mut keys = Vec::new();
         if self.version == Version::Any {
+            // `*` accepts every HTTP version an observation can carry (see `distance_ip_version`)
             keys.push(HttpIndexKey { http_version_key: Version::V10 });
             keys.push(HttpIndexKey { http_version_key: Version::V11 });
+            keys.push(HttpIndexKey { http_version_key: Version::V20 });
+            keys.push(HttpIndexKey { http_version_key: Version::V30 });
         } else {
             keys.push(HttpIndexKey { http_version_key: self.version });
         }
